@@ -12,7 +12,15 @@ package main
 //
 // Predicates on the real outputs: round trip (type preserved, RawEquals and Equals),
 // mirror (plain encoding/json decoding has the value's structure), document round
-// trip, rejection of unknown / marked / infinite.
+// trip, rejection of unknown / marked / infinite, no optional-attribute annotation in the
+// type of any decoded value.
+//
+// A round-trip failure is signed with its ROOT CAUSE, worked out from what was observed
+// (c15Cause): nested-placeholder-null/-empty (type lost or output refused, and the outcome is
+// the one unmarshal.go's rules give: c15PredTy), num-reparse / num-text-not-exact-at-own-
+// precision / set-hash (types agree and every difference found by walking original and result
+// in parallel is exactly that: c15Diff); anything else is `unexpected` and never matches a
+// recorded finding.
 
 import (
 	"bytes"
@@ -371,18 +379,48 @@ func numReparses(f *big.Float) bool {
 	return err == nil && p.RawEquals(cty.NumberVal(f))
 }
 
+// numTextOwnPrec: does Text('f',-1) re-parsed at the number's OWN precision give the number
+// back?  (math/big's shortest-text search takes the rounding interval to be symmetric; below a
+// power of two the neighbour is only half as far, so for many exact powers of two the text
+// it picks belongs to the neighbour below.)
+func numTextOwnPrec(f *big.Float) bool {
+	if f.IsInf() {
+		return false
+	}
+	g, _, err := big.ParseFloat(f.Text('f', -1), 10, f.Prec(), big.ToNearestEven)
+	return err == nil && g.Cmp(f) == 0
+}
+
+// c15NumCause: why a number that fails NumOK fails it.
+//
+//	num-text-not-exact-at-own-precision  the decimal text does not even identify the number at
+//	              its own precision (math/big, exact powers of two: 2^513 held at 512 bits)
+//	num-reparse   the text identifies the number at its own precision, which is not the 512
+//	              bits it is parsed at (float64 1e23, low-precision big.Floats)
+func c15NumCause(f *big.Float) string {
+	if !numTextOwnPrec(f) {
+		return "num-text-not-exact-at-own-precision"
+	}
+	return "num-reparse"
+}
+
 // c15SideAll collects the side conditions of C15.roundtrip_partial that (v, t)
-// violates.  (A Go mirror of the Lean predicates, used only to name the root cause of
-// a round-trip failure.)
+// violates.  (A Go mirror of the Lean predicates: compared with them on every case
+// through json.applies, and used to name the root cause of a round-trip failure.)
+//
+// nested-placeholder-null / -empty: a null / an empty list, set or map at a position whose
+// constraint is not the placeholder itself and, optional-attribute annotations aside
+// (Unmarshal drops them since /repo afdc0a2), is not the value's type there — given
+// conformance that means: a placeholder is NESTED in the constraint of that position.
 func c15SideAll(v cty.Value, t cty.Type, inSet bool, out map[string]bool) {
 	if t == cty.DynamicPseudoType {
 		t = v.Type()
 	}
 	vt := v.Type()
-	exact := t.Equals(vt)
+	exact := t.WithoutOptionalAttributesDeep().Equals(vt)
 	if v.IsNull() {
 		if !exact {
-			out["typeloss-null"] = true
+			out["nested-placeholder-null"] = true
 		}
 		return
 	}
@@ -390,7 +428,8 @@ func c15SideAll(v cty.Value, t cty.Type, inSet bool, out map[string]bool) {
 	case vt == cty.Number:
 		f := v.AsBigFloat()
 		if !numReparses(f) {
-			out["num-reparse"] = true
+			out["num-reparse"] = true // NumOK fails (the Lean predicate); the finer cause next to it
+			out[c15NumCause(f)] = true
 		} else if inSet {
 			p, _ := cty.ParseNumberVal(f.Text('f', -1))
 			if cty.VerifHash(p) != cty.VerifHash(v) {
@@ -400,7 +439,7 @@ func c15SideAll(v cty.Value, t cty.Type, inSet bool, out map[string]bool) {
 	case vt.IsListType() || vt.IsSetType() || vt.IsMapType():
 		if v.LengthInt() == 0 {
 			if !exact {
-				out["typeloss-empty"] = true
+				out["nested-placeholder-empty"] = true
 			}
 			return
 		}
@@ -440,18 +479,211 @@ func c15SideAll(v cty.Value, t cty.Type, inSet bool, out map[string]bool) {
 	}
 }
 
-// c15Side: the violated side condition of highest precedence (a type loss changes the
-// type or panics whatever the numbers are; a number that does not re-parse breaks
-// RawEquals whatever the set hashes are).
+// c15Side: the violated side condition of highest precedence (input distribution tag only;
+// the signature of a failure is worked out from what was OBSERVED, see c15Cause).
 func c15Side(v cty.Value, t cty.Type) string {
 	all := map[string]bool{}
 	c15SideAll(v, t, false, all)
-	for _, s := range []string{"nonconforming", "typeloss-null", "typeloss-empty", "num-reparse", "set-hash"} {
+	for _, s := range []string{"nonconforming", "nested-placeholder-null", "nested-placeholder-empty", "num-text-not-exact-at-own-precision", "num-reparse", "set-hash"} {
 		if all[s] {
 			return s
 		}
 	}
 	return ""
+}
+
+// c15PredTy: the type that the decoder gives the encoder's output for v against the
+// constraint c (annotations already dropped), by the rules of unmarshal.go alone: a null and
+// an empty list/set/map take the constraint as written, a placeholder position takes the
+// type written into the wrapper, a non-empty collection takes the one type of its decoded
+// members — and is REFUSED when they are of different types.
+func c15PredTy(v cty.Value, c cty.Type) (ty cty.Type, refused bool) {
+	vt := v.Type()
+	switch {
+	case c == cty.DynamicPseudoType:
+		return vt, false
+	case v.IsNull():
+		return c, false
+	case vt.IsListType() || vt.IsSetType() || vt.IsMapType():
+		if !(c.IsListType() || c.IsSetType() || c.IsMapType()) || v.LengthInt() == 0 {
+			return c, false
+		}
+		ety := cty.DynamicPseudoType
+		for it := v.ElementIterator(); it.Next(); {
+			_, ev := it.Element()
+			et, r := c15PredTy(ev, c.ElementType())
+			switch {
+			case r:
+				return c, true
+			case ety == cty.DynamicPseudoType:
+				ety = et
+			case et != cty.DynamicPseudoType && !et.Equals(ety):
+				return c, true
+			}
+		}
+		switch {
+		case vt.IsListType():
+			return cty.List(ety), false
+		case vt.IsSetType():
+			return cty.Set(ety), false
+		}
+		return cty.Map(ety), false
+	case vt.IsTupleType() && c.IsTupleType() && len(c.TupleElementTypes()) == v.LengthInt():
+		etys := make([]cty.Type, 0, v.LengthInt())
+		i := 0
+		for it := v.ElementIterator(); it.Next(); i++ {
+			_, ev := it.Element()
+			et, r := c15PredTy(ev, c.TupleElementTypes()[i])
+			if r {
+				return c, true
+			}
+			etys = append(etys, et)
+		}
+		return cty.Tuple(etys), false
+	case vt.IsObjectType() && c.IsObjectType():
+		atys := map[string]cty.Type{}
+		for _, k := range sortedKeys(vt.AttributeTypes()) {
+			if !c.HasAttribute(k) {
+				return c, false
+			}
+			et, r := c15PredTy(v.GetAttr(k), c.AttributeType(k))
+			if r {
+				return c, true
+			}
+			atys[k] = et
+		}
+		return cty.Object(atys), false
+	}
+	return c, false
+}
+
+// c15Diff walks the original v and the round-trip result v2 (of one type) in parallel and
+// names, for every place where they are not the same value, the reason:
+//
+//	num-reparse / num-text-not-exact-at-own-precision (c15NumCause)
+//	              a number came back as exactly the 512-bit parse of its own Text('f',-1),
+//	              which is not RawEquals to it (recorded findings)
+//	set-hash      a set with a number inside whose re-parsed form hashes into another bucket
+//	              (recorded finding; members of a set cannot be paired up, so inside a set the
+//	              reason is taken from the numbers it holds)
+//	unexpected-…  anything else
+func c15Diff(v, v2 cty.Value, out map[string]bool) {
+	if v.IsNull() || v2.IsNull() {
+		if v.IsNull() != v2.IsNull() {
+			out["unexpected-nullness"] = true
+		}
+		return
+	}
+	ty := v.Type()
+	switch {
+	case ty == cty.Number:
+		if v2.RawEquals(v) {
+			return
+		}
+		f := v.AsBigFloat()
+		exp, err := cty.ParseNumberVal(f.Text('f', -1))
+		if err == nil && !numReparses(f) && v2.RawEquals(exp) {
+			out[c15NumCause(f)] = true
+		} else {
+			out["unexpected-number"] = true
+		}
+	case ty.IsPrimitiveType():
+		if !v2.RawEquals(v) {
+			out["unexpected-leaf"] = true
+		}
+	case ty.IsSetType():
+		in := map[string]bool{}
+		c15SideAll(v, ty, false, in)
+		switch {
+		case in["num-text-not-exact-at-own-precision"]:
+			out["num-text-not-exact-at-own-precision"] = true
+		case in["num-reparse"]:
+			out["num-reparse"] = true
+		case in["set-hash"]:
+			out["set-hash"] = true
+		default:
+			eq := cty.False
+			if p, _ := try(func() { eq = v2.Equals(v) }); p || !eq.IsKnown() || eq.False() || !v2.RawEquals(v) {
+				out["unexpected-set"] = true
+			}
+		}
+	case ty.IsListType() || ty.IsTupleType():
+		if v.LengthInt() != v2.LengthInt() {
+			out["unexpected-length"] = true
+			return
+		}
+		it2 := v2.ElementIterator()
+		for it := v.ElementIterator(); it.Next() && it2.Next(); {
+			_, a := it.Element()
+			_, b := it2.Element()
+			c15Diff(a, b, out)
+		}
+	case ty.IsMapType() || ty.IsObjectType():
+		if v.LengthInt() != v2.LengthInt() {
+			out["unexpected-length"] = true
+			return
+		}
+		it2 := v2.ElementIterator()
+		for it := v.ElementIterator(); it.Next() && it2.Next(); {
+			ka, a := it.Element()
+			kb, b := it2.Element()
+			if !ka.RawEquals(kb) {
+				out["unexpected-keys"] = true
+				return
+			}
+			c15Diff(a, b, out)
+		}
+	}
+}
+
+// c15Cause: the root cause of an OBSERVED round-trip failure of the given kind, or
+// "unexpected" when the observation is not exactly what a recorded cause produces (a
+// recorded finding must not hide another defect):
+//
+//	unmarshal-err   only a nested placeholder explains it, and only where unmarshal.go's
+//	                rules make the members of some list/set/map come out with different types
+//	type            only a nested placeholder explains it, and the type that came back must be
+//	                the one those rules give
+//	equals          types agree: every difference found by the parallel walk must be a number
+//	                re-parse or a set hash
+func c15Cause(kind string, v cty.Value, t cty.Type, v2 cty.Value) string {
+	all := map[string]bool{}
+	c15SideAll(v, t, false, all)
+	nested := ""
+	switch {
+	case all["nonconforming"]:
+	case all["nested-placeholder-null"]:
+		nested = "nested-placeholder-null"
+	case all["nested-placeholder-empty"]:
+		nested = "nested-placeholder-empty"
+	}
+	switch kind {
+	case "unmarshal-err", "unmarshal-panic":
+		if _, refused := c15PredTy(v, t.WithoutOptionalAttributesDeep()); refused && nested != "" {
+			return nested
+		}
+	case "type":
+		if pt, refused := c15PredTy(v, t.WithoutOptionalAttributesDeep()); !refused && nested != "" && v2.Type().Equals(pt) {
+			return nested
+		}
+	case "equals":
+		d := map[string]bool{}
+		c15Diff(v, v2, d)
+		for k := range d {
+			if strings.HasPrefix(k, "unexpected") {
+				return "unexpected"
+			}
+		}
+		switch {
+		case d["num-text-not-exact-at-own-precision"]:
+			return "num-text-not-exact-at-own-precision"
+		case d["num-reparse"]:
+			return "num-reparse"
+		case d["set-hash"]:
+			return "set-hash"
+		}
+	}
+	return "unexpected"
 }
 
 func c15GoLit(v cty.Value, t cty.Type) string {
@@ -548,6 +780,12 @@ func c15Unmarshal(ctx *Ctx, b []byte, t cty.Type) (v cty.Value, outcome string) 
 	if outcome == "ok" {
 		impl = "ok " + encVal(v)
 		tb.addVal(v)
+		// C15.unmarshal_type_has_no_annotations on the real output (/repo afdc0a2)
+		ctx.Eval("noopt "+tree+" "+encTy(t), strings.Contains(encTy(t), " 1)"))
+		if !v.Type().Equals(v.Type().WithoutOptionalAttributesDeep()) {
+			ctx.Fail(Failure{Site: "decoded-type", Sig: "optional-annotations-in-value-type", What: "Unmarshal returned a value whose type carries optional-attribute annotations",
+				Input: tree + " " + encTy(t), GoLit: fmt.Sprintf("json.Unmarshal([]byte(%q), %#v)", b, t), Outcome: encTy(v.Type())})
+		}
 	} else if strings.Contains(encTy(t), "(E ") || strings.Contains(encTy(t), "D") {
 		tb.addSetMembersOfDoc(b, t, 0)
 	}
@@ -570,14 +808,15 @@ func c15RoundTrip(ctx *Ctx, v cty.Value, t cty.Type, how string) {
 		tb := newC15tbl()
 		tb.addVal(v)
 		ctx.Add("json.applies", encBool(!all["num-reparse"] && !all["nonconforming"])+" "+encBool(!strings.Contains(encTy(v.Type()), "(E "))+" "+
-			encBool(!all["typeloss-null"] && !all["typeloss-empty"]), tb.String(), encVal(v), encTy(t))
+			encBool(!all["nested-placeholder-null"] && !all["nested-placeholder-empty"]), tb.String(), encVal(v), encTy(t))
 	}
+	v2 := cty.NilVal
 	fail := func(kind, what, outcome string) {
-		sig := kind + ":unexpected"
-		if side != "" {
-			sig = kind + ":" + side
+		cause := "unexpected"
+		if p, _ := try(func() { cause = c15Cause(kind, v, t, v2) }); p {
+			cause = "unexpected"
 		}
-		ctx.Fail(Failure{Site: "roundtrip", Sig: sig, What: what, Input: in, GoLit: c15GoLit(v, t), Outcome: outcome})
+		ctx.Fail(Failure{Site: "roundtrip", Sig: kind + ":" + cause, What: what, Input: in, GoLit: c15GoLit(v, t), Outcome: outcome})
 	}
 	ctx.Eval(key, valDepth(v) >= 2 || hasFraction(v))
 	if side != "" {
@@ -591,7 +830,8 @@ func c15RoundTrip(ctx *Ctx, v cty.Value, t cty.Type, how string) {
 		}
 		return
 	}
-	v2, uo := c15Unmarshal(ctx, b, t)
+	var uo string
+	v2, uo = c15Unmarshal(ctx, b, t)
 	if uo == "ok" && v2.Type().Equals(v.Type()) && !strings.Contains(encTy(v.Type()), "(E ") {
 		c15Same(ctx, v2, v)
 	}
@@ -608,7 +848,9 @@ func c15RoundTrip(ctx *Ctx, v cty.Value, t cty.Type, how string) {
 		p, _ := try(func() { eq = v2.Equals(v) })
 		raw := v2.RawEquals(v)
 		switch {
-		case p || !eq.IsKnown() || eq.False():
+		case p:
+			fail("equals-panic", "Equals panics on the round trip result and the original", string(b)+" -> "+encVal(v2))
+		case !eq.IsKnown() || eq.False():
 			what := "round trip result is not Equals to the original"
 			if raw {
 				what += " (although RawEquals)"
@@ -719,21 +961,58 @@ func runC15Corpus(ctx *Ctx) {
 			fmt.Sprintf("Hash(float64 3.9477794105)=%d (expected 1243578146), Hash(parsed)=%d (expected 1459007788)", h53, h512))
 	}
 	str := cty.StringVal
+	objA := cty.Object(map[string]cty.Type{"a": cty.String})
+	optA := cty.ObjectWithOptionalAttrs(map[string]cty.Type{"a": cty.String}, []string{"a"})
+	// the recorded findings (each must keep reproducing under its own signature) …
 	pairs := []struct {
 		v cty.Value
 		t cty.Type
 	}{
 		{cty.NullVal(cty.List(cty.String)), cty.List(cty.DynamicPseudoType)},
 		{cty.ListValEmpty(cty.Bool), cty.List(cty.DynamicPseudoType)},
-		{cty.NullVal(cty.Object(map[string]cty.Type{"a": cty.String})), cty.ObjectWithOptionalAttrs(map[string]cty.Type{"a": cty.String}, []string{"a"})},
 		{cty.ListVal([]cty.Value{cty.NullVal(cty.List(cty.String)), cty.ListVal([]cty.Value{str("a")})}), cty.List(cty.List(cty.DynamicPseudoType))},
 		{cty.ListVal([]cty.Value{cty.ListValEmpty(cty.String), cty.ListVal([]cty.Value{str("a")})}), cty.List(cty.List(cty.DynamicPseudoType))},
 		{cty.NumberFloatVal(1e23), cty.Number},
+		// 2^513 held at cty's own 512 bits: math/big's shortest text is the neighbour's
+		{cty.MustParseNumberVal(new(big.Int).Lsh(big.NewInt(1), 513).String()), cty.Number},
 		{cty.SetVal([]cty.Value{cty.NumberFloatVal(3.9477794105)}), cty.Set(cty.Number)},
 		{cty.SetVal([]cty.Value{cty.NumberFloatVal(3.9477794105), cty.MustParseNumberVal("3.9477794105")}), cty.Set(cty.Number)},
+		// a placeholder nested UNDER an optional attribute: still a type loss, and the annotation is not its cause
+		{cty.NullVal(cty.Object(map[string]cty.Type{"a": cty.List(cty.String)})),
+			cty.ObjectWithOptionalAttrs(map[string]cty.Type{"a": cty.List(cty.DynamicPseudoType)}, []string{"a"})},
+		// a number that does not re-parse next to a null at an ANNOTATED position: the only
+		// difference left is the number (this was misread as a type loss while the model was stale)
+		{cty.TupleVal([]cty.Value{cty.NumberFloatVal(1e23), cty.NullVal(cty.Object(map[string]cty.Type{"Ab": cty.Bool}))}),
+			cty.Tuple([]cty.Type{cty.Number, cty.ObjectWithOptionalAttrs(map[string]cty.Type{"Ab": cty.Bool}, []string{"Ab"})})},
 	}
 	for _, p := range pairs {
 		c15RoundTrip(ctx, p.v, p.t, "corpus")
+	}
+	// … and the witnesses of the REPAIRED part of the type loss (/repo afdc0a2: Unmarshal drops
+	// the optional-attribute annotations of the requested type): a null, an empty list / set /
+	// map, and a null next to a typed sibling, each against an annotated constraint without any
+	// placeholder.  They must round-trip; any failure here is a regression.
+	fixed := []struct {
+		v cty.Value
+		t cty.Type
+	}{
+		{cty.NullVal(objA), optA},
+		{cty.ListValEmpty(objA), cty.List(optA)},
+		{cty.SetValEmpty(objA), cty.Set(optA)},
+		{cty.MapValEmpty(objA), cty.Map(optA)},
+		{cty.ListVal([]cty.Value{cty.NullVal(objA), cty.ObjectVal(map[string]cty.Value{"a": str("x")})}), cty.List(optA)},
+		{cty.MapVal(map[string]cty.Value{"k": cty.NullVal(objA), "zz": cty.ObjectVal(map[string]cty.Value{"a": str("x")})}), cty.Map(optA)},
+		{cty.TupleVal([]cty.Value{cty.NullVal(cty.List(objA)), cty.ListValEmpty(objA)}), cty.Tuple([]cty.Type{cty.List(optA), cty.List(optA)})},
+		{cty.ObjectVal(map[string]cty.Value{"a": cty.NullVal(cty.String)}), optA},
+	}
+	for i, p := range fixed {
+		before := ctx.res.FailureCount
+		c15RoundTrip(ctx, p.v, p.t, "corpus-fixed")
+		if ctx.res.FailureCount != before {
+			ctx.Fail(Failure{Site: "regression", Sig: fmt.Sprintf("optional-annotation-typeloss:%d", i),
+				What:  "a value against a placeholder-free constraint with optional attributes does not round-trip (repaired by /repo afdc0a2)",
+				Input: encVal(p.v) + " " + encTy(p.t), GoLit: c15GoLit(p.v, p.t), Outcome: "round trip failed"})
+		}
 	}
 	docs := []struct {
 		doc string
@@ -747,6 +1026,25 @@ func runC15Corpus(ctx *Ctx) {
 		{`{"a":{"value":1,"type":"number"},"b":{"value":"a","type":"string"}}`, cty.Map(cty.DynamicPseudoType)},
 		{`[1,"a"]`, cty.List(cty.DynamicPseudoType)},
 		{`{"value":1,"type":["object",{"a":"string"},["b"]]}`, cty.DynamicPseudoType},
+	}
+	// regression (/repo afdc0a2): a type descriptor with an optional attribute must not leak the
+	// annotation into the type of the decoded value, nor may a requested type
+	for _, d := range []struct {
+		doc string
+		t   cty.Type
+	}{
+		{`{"type":["object",{"a":"string"},["a"]],"value":null}`, cty.DynamicPseudoType},
+		{`{"type":["list",["object",{"a":"string"},["a"]]],"value":[]}`, cty.DynamicPseudoType},
+		{`[{"type":["object",{"a":"string"},["a"]],"value":null},{"type":["object",{"a":"string"}],"value":{"a":"x"}}]`, cty.List(cty.DynamicPseudoType)},
+		{`null`, optA},
+		{`[]`, cty.List(optA)},
+		{`{}`, cty.Map(cty.Tuple([]cty.Type{optA}))},
+	} {
+		v, o := c15Unmarshal(ctx, []byte(d.doc), d.t)
+		if o != "ok" || !v.Type().Equals(v.Type().WithoutOptionalAttributesDeep()) {
+			ctx.Fail(Failure{Site: "regression", Sig: "decoded-type-has-optional-annotations:" + d.doc, What: "Unmarshal refuses the document or returns a value whose type carries optional-attribute annotations (repaired by /repo afdc0a2)",
+				Input: d.doc + " " + encTy(d.t), GoLit: fmt.Sprintf("json.Unmarshal([]byte(%q), %#v)", d.doc, d.t), Outcome: o})
+		}
 	}
 	for _, d := range docs {
 		// regression: these inputs made the decoder panic before /repo e63bbcc, 4e1e2c6, 5020d30
